@@ -91,7 +91,8 @@ impl TryFrom<(FeelNumber, FeelNumber, FeelNumber)> for FeelDate {
   /// Converts a tuple of numbers into [FeelDate].
   fn try_from(value: (FeelNumber, FeelNumber, FeelNumber)) -> Result<Self, Self::Error> {
     let year = value.0.into();
-    if value.1 > FeelNumber::zero() && value.2 > FeelNumber::zero() {
+    // check the ranges before converting, the conversions below would wrap bigger numbers around
+    if (-999_999_999..1_000_000_000).contains(&value.0) && (1..13).contains(&value.1) && (1..32).contains(&value.2) {
       let month = value.1.into();
       let day = value.2.into();
       if is_valid_date(year, month, day) {
